@@ -89,7 +89,7 @@ def digest_type_params(compiler, tp):
     "Return a `type_params` attribute for `FunctionDef` etc."
 
     if not tp:
-        return {}
+        return dict(type_params = []) if PY3_12 else {}
     if not PY3_12:
        compiler._syntax_error(tp, "`:tp` requires Python 3.12 or later")
 
